@@ -4,6 +4,7 @@ import pyspec
 
 ID = "C12"
 TARGETS = ["Properties/C12.vo"]
+NEED_CLI = True
 FIELDS = ["key", "ts", "sq", "ais", "alt"]
 EXPLANATION = ("theorems: every applied frame sets the row's timestamp to now on both paths (age restarts at 0) and the row survives that step; "
                "a row younger than delete_after survives frames of other aircraft; at a sweep every stale row is removed; the sweep counter "
@@ -51,12 +52,45 @@ def gen(seed, tier):
             else:
                 segs.append(seg(t, filler(g, r.randint(5, 25), others) + [g.any_frame(target)] + filler(g, r.randint(0, 14), others)))
         cases.append(H("C12-%d" % i, o, segs))
+    # the sweep cadence with the display running (the CLI refreshing after every frame, or on its timer): with
+    # --delete-after 0 (or negative) every row is stale at once, so the table shown at the end holds exactly the aircraft
+    # heard after the last sweep -- the 12th applied frame and every 11th after it
+    for i in range(8 if tier == "quick" else 80):
+        pool = r.sample(ICAOS, r.randint(3, 6))
+        lines = [g.any_frame(r.choice(pool)) for _ in range(r.randint(13, 60))]
+        o = {"i": r.choice(["x", "e", "aAews"]), "u": r.choice([-1, -1, 0]), "o": "x", "d": r.choice([0, 0, -3])}
+        if i % 2:
+            o["U"] = 1
+        cases.append(("C12-c%d" % i, "C", opts_str(o), seg(0, lines)))
     return cases
 
 
 def oracle(parts, outcome, obs):
     if outcome.replace("+slow", "") != "ok":
         return "outcome %s" % outcome
+    if parts[1] == "C":
+        from props.common import frames_of, rows_of_frame
+        applied = []
+        for ln in pyspec.case_segments(parts)[0][1]:
+            fr = pyspec.frame_of_line(ln)
+            if fr and fr != "zero":
+                applied.append(fr[1])
+        # sweeps at applied frame 12, 23, 34, ... (counter > 10, reset to 1); the sweeping frame's own row goes too (age 0 >= limit)
+        last_sweep = 0
+        k = 12
+        while k <= len(applied):
+            last_sweep = k
+            k += 11
+        want = sorted(set("%06X" % a for a in applied[last_sweep:]))
+        frames = frames_of(obs)
+        if int(pyspec.case_opts(parts).get("u", "-1")) != -1:
+            return None     # refresh on the timer: nothing need be printed within the run; the model comparison covers it
+        if not frames:
+            return "nothing printed"
+        got = sorted(l[:6] for l in rows_of_frame(frames[-1]))
+        if got != want:
+            return "table at the end %s; with --delete-after <= 0 only the aircraft heard after the last sweep (applied frame %d of %d) remain: %s" % (got, last_sweep, len(applied), want)
+        return None
     opts = pyspec.case_opts(parts)
     d = int(opts.get("d", "60"))
     segs = pyspec.case_segments(parts)
